@@ -37,6 +37,13 @@
 #include <stdarg.h>
 #include "xraylib.h"
 
+/* hidden-state poisoning: the library must not READ errno (or any other thread state the application may have left behind).
+   Before every operation the driver leaves a different value there, as an application that has just overflowed a strtod, taken
+   the log of a negative number or failed an allocation would; the answers must not depend on it.  (Seeded changes C02-9, C06-9,
+   C07-9, C12-9, C15-10, C16-7: "errno == ERANGE" tests without clearing errno first.) */
+#include <errno.h>
+static void xv_poison_errno(void) { static unsigned k; static const int v[4] = {ERANGE, EDOM, ENOMEM, 0}; errno = v[k++ & 3]; }
+
 /* ---------------- allocation counter ------------------------------------------------------- */
 static long live_blocks = 0;
 void *__real_malloc(size_t); void *__real_calloc(size_t, size_t); void *__real_realloc(void *, size_t);
@@ -233,6 +240,7 @@ int main(void) {
   char *tok[20];
   setvbuf(stdout, NULL, _IOFBF, 1 << 16);
   while (fgets(line, sizeof line, stdin)) {
+    xv_poison_errno();
     int nt = 0;
     for (char *p = strtok(line, " \n"); p && nt < 20; p = strtok(NULL, " \n")) tok[nt++] = p;
     if (nt == 0) continue;
